@@ -74,13 +74,13 @@ def tree_jobs(tier):
         jobs.append(Job("h_tree::tree_rule", (n, 6, 2), {}, budget_s=1500, validate=40))
     jobs.append(Job("h_tree::tree_rule", (3, 8, 0), {}, budget_s=1500, validate=40))
     if tier != "quick":
-        jobs.append(Job("h_tree::tree_rule", (3, 8, 2), {}, budget_s=3000, validate=60))
+        jobs.append(Job("h_tree::tree_rule", (3, 8, 1), {}, budget_s=3000, validate=60))
         jobs.append(Job("h_tree::tree_rule", (3, 6, 0), {}, budget_s=3000, validate=60))
     return jobs
 
 
 TREE_BOUNDS = {"records": "n <= 2 with digests [0-9a-z] and all hash-iteration orders of validate; n = 3 with digests in {a,b,r} (quick: one hash order; "
-                          "thorough: all orders, [0-9a-z] digests)",
+                          "thorough: forward and reverse hash orders, [0-9a-z] digests)",
                "shapes": "every record is a creation, an update / deletion / resolution marker of any earlier record, an update whose index jumps by 9 (identifiers with indices >= 10, where numeric and "
                          "textual order disagree), or the child of an unrecorded (dangling) parent of index 1 or 2",
                "orders": "every order of learning through add(); the opposite order through unvalidated_add()+validate(); one re-delivery"}
